@@ -189,9 +189,16 @@ type replayOut struct {
 	died      bool
 	diedAt    string
 	err       error
+	replayed  bool // the base's block was executed by the handshake replay after a kill
 }
 
 func (wm *warm) replayProbe(base []byte, resub []byte, gap int, restart bool, between ...[]byte) *replayOut {
+	return wm.replayProbeCrash(base, resub, gap, restart, "", between...)
+}
+
+// replayProbeCrash: with crash != "" the node is killed at that call boundary of the base block (the block is
+// saved by Tendermint, the application has not committed it) and started again: the handshake replays the block.
+func (wm *warm) replayProbeCrash(base []byte, resub []byte, gap int, restart bool, crash string, between ...[]byte) *replayOut {
 	o := &replayOut{}
 	b, dir, err := wm.fork()
 	defer os.RemoveAll(dir)
@@ -222,19 +229,42 @@ func (wm *warm) replayProbe(base []byte, resub []byte, gap int, restart bool, be
 		// transactions of other accounts executed in the same block right before the base
 		first = append(append([][]byte{}, pre.([][]byte)...), base)
 	}
-	resp, ok := step(first)
-	if !ok {
-		o.diedAt = "base-block"
-		return o
-	}
-	st = st.Apply(resp.Dump, resp.DumpFull)
-	for _, c := range resp.Calls {
-		if c.M == "DeliverTx" {
-			o.baseOK = c.Code == 0
-			o.baseLog = c.Log
+	var resp *proto.Resp
+	var ok bool
+	if crash != "" {
+		if _, err := b.Block(&proto.Recipe{DtMs: 5000, Txs: first, Crash: crash}); err == nil || !b.Dead {
+			o.err = fmt.Errorf("crash point %s was not reached", crash)
+			return o
+		}
+		if err := b.Restart(); err != nil {
+			o.err = fmt.Errorf("restart after the kill: %v", err)
+			return o
+		}
+		for _, c := range b.Boot.Calls {
+			if c.M == "DeliverTx" {
+				o.baseOK = c.Code == 0
+				o.baseLog = c.Log
+				o.replayed = true
+			}
+		}
+		if d, err := b.Do(proto.Cmd{Op: "dump", Full: true}); err == nil {
+			st = hist.State{}.Apply(d.Dump, true)
+		}
+	} else {
+		resp, ok = step(first)
+		if !ok {
+			o.diedAt = "base-block"
+			return o
+		}
+		st = st.Apply(resp.Dump, resp.DumpFull)
+		for _, c := range resp.Calls {
+			if c.M == "DeliverTx" {
+				o.baseOK = c.Code == 0
+				o.baseLog = c.Log
+			}
 		}
 	}
-	if restart {
+	if restart && crash == "" {
 		if err := b.Restart(); err != nil {
 			o.err = fmt.Errorf("restart: %v", err)
 			return o
@@ -315,6 +345,7 @@ func checkC05(tier string) int {
 		restart bool
 		twin    hist.State
 		between [][]byte
+		crash   string
 	}
 	var jobs []job
 	var jmu sync.Mutex
@@ -348,34 +379,53 @@ func checkC05(tier string) int {
 			between[len(bases)] = [][]byte{refund}
 			bases = append(bases, hist.TxSpec{Kind: "OLVM", Bytes: tx, Note: "EVM account spends its whole balance (refunded later by somebody else)", Signers: []string{fresh.Addr.String()}})
 		}
+		// an EVM transaction that carries a value into an execution that fails and burns all its gas (the
+		// constructor is the INVALID instruction; a call into such code): it is executed, the sender pays, the
+		// sequence moves on
+		for k, data := range [][]byte{{0xfe}, {0x60, 0x01, 0x60, 0x00, 0xf3}} {
+			key := ethcrypto.Keccak256([]byte(fmt.Sprintf("c05-burn-%d-%d-%d", wm.seed, wm.h, k)))
+			fresh := world.AccountFromEthSecp(fmt.Sprintf("c05-burn-%d-%d", wm.h, k), key)
+			u := wm.w.Users[0]
+			fund := txb.Tx(txb.Send(u.Addr, fresh.Addr, "OLT", "3000000000000000000"), txb.DefaultFee(), fmt.Sprintf("c05-fund-burn-%d-%d", wm.h, k), u)
+			var tx []byte
+			note := "EVM creation with an endowment whose constructor is INVALID (all gas burnt)"
+			if k == 0 {
+				tx = gen.OLVMTx(&gen.Ctx{W: wm.w}, &fresh, key, 0, nil, big.NewInt(70000), data, 120000, "1000000000", gen.ChainIDOf(wm.w), "0")
+			} else {
+				// creation whose constructor returns one byte of code (0x00...): stored, then a later call is harmless;
+				// here: the deployed code is the single byte at memory 0 (STOP): creation succeeds with an endowment
+				tx = gen.OLVMTx(&gen.Ctx{W: wm.w}, &fresh, key, 0, nil, big.NewInt(70000), data, 120000, "1000000000", gen.ChainIDOf(wm.w), "0")
+				note = "EVM creation with an endowment that succeeds"
+			}
+			c05Pre.Store(string(tx), [][]byte{fund})
+			bases = append(bases, hist.TxSpec{Kind: "OLVM", Bytes: tx, Note: note, Signers: []string{fresh.Addr.String()}})
+		}
 		parallel(len(bases), 14, func(bi int) {
 			b := bases[bi]
 			// twins: base executed, then (gap+1) empty blocks
-			variants := []struct {
+			type variant struct {
 				gap     int
 				restart bool
-			}{{0, false}}
+				crash   string
+			}
+			variants := []variant{{0, false, ""}}
 			if tier == "thorough" || bi%4 == 0 {
-				variants = append(variants, struct {
-					gap     int
-					restart bool
-				}{3, true})
+				variants = append(variants, variant{3, true, ""})
 			}
 			if bi%3 == 1 || tier == "thorough" {
 				// restarted node, resubmission before the first block after the restart
-				variants = append(variants, struct {
-					gap     int
-					restart bool
-				}{0, true})
+				variants = append(variants, variant{0, true, ""})
+			}
+			if bi%3 == 2 || tier == "thorough" {
+				// the node is killed after Tendermint saved the base's block and before the application
+				// committed it: the block is executed by the handshake replay of the next start
+				variants = append(variants, variant{bi % 2, true, []string{"before:Commit", "after:EndBlock", "after:DeliverTx:0"}[bi%3]})
 			}
 			if between[bi] != nil {
-				variants = []struct {
-					gap     int
-					restart bool
-				}{{2, false}, {3, true}}
+				variants = []variant{{2, false, ""}, {3, true, ""}}
 			}
 			for _, v := range variants {
-				tw := wm.replayProbe(b.Bytes, nil, v.gap, v.restart, between[bi]...)
+				tw := wm.replayProbeCrash(b.Bytes, nil, v.gap, v.restart, v.crash, between[bi]...)
 				if tw.err != nil || tw.died || !tw.baseOK {
 					r.Count("bases_not_executable", 1)
 					if between[bi] != nil || b.Note == "transfer with an empty memo" {
@@ -386,6 +436,9 @@ func checkC05(tier string) int {
 				if between[bi] != nil {
 					r.Count("directed:drain-and-refund-base-executed", 1)
 				}
+				if v.crash != "" && tw.replayed {
+					r.Count("bases_executed_by_handshake_replay", 1)
+				}
 				r.Count("bases_executed", 1)
 				jmu.Lock()
 				encs := reencodings(b.Bytes)
@@ -393,7 +446,7 @@ func checkC05(tier string) int {
 					encs = append(encs, olvmUnsignedVariants(b.Bytes)...)
 				}
 				for _, e := range encs {
-					jobs = append(jobs, job{wm, b, e, v.gap, v.restart, tw.state, between[bi]})
+					jobs = append(jobs, job{wm, b, e, v.gap, v.restart, tw.state, between[bi], v.crash})
 				}
 				jmu.Unlock()
 			}
@@ -401,14 +454,15 @@ func checkC05(tier string) int {
 	}
 	sort.Slice(jobs, func(i, j int) bool {
 		a, b := jobs[i], jobs[j]
-		return fmt.Sprint(a.wm.h, a.base.Kind, a.enc.name, a.gap) < fmt.Sprint(b.wm.h, b.base.Kind, b.enc.name, b.gap)
+		return fmt.Sprint(a.wm.h, a.base.Kind, a.enc.name, a.gap, a.crash, a.restart, a.base.Note) < fmt.Sprint(b.wm.h, b.base.Kind, b.enc.name, b.gap, b.crash, b.restart, b.base.Note)
 	})
 	r.Gate("resubmissions", 40)
+	r.Gate("bases_executed_by_handshake_replay", 2)
 	kinds := map[string]bool{}
 	var kmu sync.Mutex
 	parallel(len(jobs), 14, func(i int) {
 		j := jobs[i]
-		id := fmt.Sprintf("%d/%s/%s/gap%d/restart=%v/%s", j.wm.h, j.base.Kind, j.enc.name, j.gap, j.restart, cut(j.base.Note, 30))
+		id := fmt.Sprintf("%d/%s/%s/gap%d/restart=%v%s/%s", j.wm.h, j.base.Kind, j.enc.name, j.gap, j.restart, j.crash, cut(j.base.Note, 30))
 		same := sameSignedContent(j.base.Bytes, j.enc.bytes)
 		if j.base.Kind == "OLVM" && strings.HasPrefix(j.enc.name, "olvm-unsigned") {
 			// the EVM-style signature covers nonce, recipient, value, gas, price, data and chain id only
@@ -420,7 +474,7 @@ func checkC05(tier string) int {
 			r.Case(id, false)
 			return
 		}
-		o := j.wm.replayProbe(j.base.Bytes, j.enc.bytes, j.gap, j.restart, j.between...)
+		o := j.wm.replayProbeCrash(j.base.Bytes, j.enc.bytes, j.gap, j.restart, j.crash, j.between...)
 		if o.err != nil {
 			r.Diag(id + ": " + o.err.Error())
 			r.Case(id, false)
@@ -441,7 +495,7 @@ func checkC05(tier string) int {
 		if j.base.Kind == "OLVM" {
 			family = "OLVM"
 		}
-		wit := map[string]interface{}{"warm_seed": j.wm.seed, "warm_height": j.wm.h, "kind": j.base.Kind, "encoding": j.enc.name, "gap_blocks": j.gap, "restart": j.restart, "original": string(j.base.Bytes), "resubmission": string(j.enc.bytes)}
+		wit := map[string]interface{}{"warm_seed": j.wm.seed, "warm_height": j.wm.h, "kind": j.base.Kind, "encoding": j.enc.name, "gap_blocks": j.gap, "restart": j.restart, "killed_at": j.crash, "original": string(j.base.Bytes), "resubmission": string(j.enc.bytes)}
 		if o.checkCode == 0 {
 			r.Violate(verdict.Violation{Signature: "C05/check-accepted/" + family + "/" + j.enc.name, What: fmt.Sprintf("%s executed in a block; its resubmission as %q (%d blocks later, restart=%v) got CheckTx code 0", j.base.Kind, j.enc.name, j.gap, j.restart), Witness: wit})
 		}
